@@ -90,6 +90,13 @@ Theorem wait_graph_acyclic : exists rank : string -> nat, forall a b where_,
 Proof. exact wait_graph_acyclic_l. Qed.
 Print Assumptions wait_graph_acyclic.
 
+(* the table still lists the waits the property is about (Cluster.Shutdown collecting the cluster's goroutines, with
+   the code units that WaitGroup covers; the tracker's Shutdown) - a rename or a pattern the translator no longer
+   recognises must not make the obligation above hold vacuously *)
+Theorem table_covers_waits : wait_coverage_okb waits members = true.
+Proof. exact table_covers_waits_l. Qed.
+Print Assumptions table_covers_waits.
+
 (* hence: threads whose acquisitions and waits are instances of edges of that graph (from every lock held there and
    from every group that covers the thread) never reach a state in which every unfinished thread is blocked *)
 Theorem table_no_wait_deadlock (grp : nat -> list group) (progs : nat -> list gev) n s0 s :
